@@ -670,10 +670,14 @@ type c11Dev struct {
 	legal   bool     // must load
 	expect  []string // substrings of dump lines that must change (removed from base / added in deviated); nil with legal => node removed
 	removed bool     // not-supported: every line below target disappears and the parent's children line changes
+	// exact: for a dump-line prefix (e.g. "must["), the complete list of the target's lines with that prefix after the deviation
+	exact map[string][]string
 }
 
 const c11DevBody = `container c { leaf lf { type string; units "cm"; default "d"; mandatory false; config true; must "x"; }
     leaf plain { type string; }
+    leaf mm { type string; units "cm"; default "d"; must "m1"; must "m2"; must "m3"; }
+    list l3 { key k; unique "u1"; unique "u2"; unique "u1 u2"; leaf k { type string; } leaf u1 { type string; } leaf u2 { type string; } }
     leaf-list ll { type string; min-elements 1; max-elements 5; default "a"; default "b"; units "u"; }
     list li { key k; unique "u1 u2"; max-elements 9; min-elements 0; leaf k { type string; } leaf u1 { type string; } leaf u2 { type string; } must "y"; }
     container inner { leaf deep { type int32; } }
@@ -687,46 +691,58 @@ const c11DevBody = `container c { leaf lf { type string; units "cm"; default "d"
 
 func c11Deviations() []c11Dev {
 	return []c11Dev{
-		{"not-supported/leaf", "/c/lf", "deviate not-supported;", true, nil, true},
-		{"not-supported/container", "/c/inner", "deviate not-supported;", true, nil, true},
-		{"not-supported/list", "/c/li", "deviate not-supported;", true, nil, true},
-		{"not-supported/leaf-list", "/c/ll", "deviate not-supported;", true, nil, true},
-		{"not-supported/choice-member", "/c/ch/ca/cl", "deviate not-supported;", true, nil, true},
-		{"not-supported/nested", "/c/inner/deep", "deviate not-supported;", true, nil, true},
-		{"not-supported/grouping-expanded", "/u/gl", "deviate not-supported;", true, nil, true},
-		{"not-supported/rpc", "/r1", "deviate not-supported;", true, nil, true},
-		{"not-supported/notification", "/n1", "deviate not-supported;", true, nil, true},
-		{"not-supported/top-leaf", "/top", "deviate not-supported;", true, nil, true},
-		{"add/units", "/c/plain", `deviate add { units "m"; }`, true, []string{"units="}, false},
-		{"add/default", "/c/plain", `deviate add { default "x"; }`, true, []string{"default="}, false},
-		{"add/config", "/c/plain", `deviate add { config false; }`, true, []string{"config="}, false},
-		{"add/mandatory", "/c/plain", `deviate add { mandatory true; }`, true, []string{"mandatory="}, false},
-		{"add/must", "/c/plain", `deviate add { must "z"; }`, true, []string{"must[0]="}, false},
-		{"add/must-second", "/c/lf", `deviate add { must "z"; }`, true, []string{"must[1]="}, false},
-		{"add/unique", "/c/li", `deviate add { unique "k u1"; }`, true, []string{"unique="}, false},
-		{"add/units-where-present", "/c/lf", `deviate add { units "m"; }`, false, nil, false},
-		{"add/default-where-present", "/c/lf", `deviate add { default "x"; }`, false, nil, false},
-		{"replace/units", "/c/lf", `deviate replace { units "mm"; }`, true, []string{"units="}, false},
-		{"replace/default", "/c/lf", `deviate replace { default "e"; }`, true, []string{"default="}, false},
-		{"replace/config", "/c/lf", `deviate replace { config false; }`, true, []string{"config="}, false},
-		{"replace/mandatory", "/c/lf", `deviate replace { mandatory true; }`, true, []string{"mandatory="}, false},
-		{"replace/max-elements", "/c/ll", `deviate replace { max-elements 3; }`, true, []string{"max-elements="}, false},
-		{"replace/min-elements", "/c/ll", `deviate replace { min-elements 2; }`, true, []string{"min-elements="}, false},
-		{"replace/max-elements-list", "/c/li", `deviate replace { max-elements 3; }`, true, []string{"max-elements="}, false},
-		{"replace/type", "/c/plain", `deviate replace { type int32; }`, true, []string{"type.format="}, false},
-		{"replace/leaf-list-defaults", "/c/ll", `deviate replace { default "z"; }`, true, []string{"default="}, false},
-		{"replace/units-where-absent", "/c/plain", `deviate replace { units "mm"; }`, false, nil, false},
-		{"replace/default-where-absent", "/c/plain", `deviate replace { default "e"; }`, false, nil, false},
-		{"delete/units", "/c/lf", `deviate delete { units "cm"; }`, true, []string{"units="}, false},
-		{"delete/default", "/c/lf", `deviate delete { default "d"; }`, true, []string{"default="}, false},
-		{"delete/must", "/c/lf", `deviate delete { must "x"; }`, true, []string{"must[0]="}, false},
-		{"delete/unique", "/c/li", `deviate delete { unique "u1 u2"; }`, true, []string{"unique="}, false},
-		{"delete/leaf-list-defaults", "/c/ll", `deviate delete { default "a"; default "b"; }`, true, []string{"default="}, false},
-		{"delete/units-mismatch", "/c/lf", `deviate delete { units "km"; }`, false, nil, false},
-		{"delete/default-mismatch", "/c/lf", `deviate delete { default "other"; }`, false, nil, false},
-		{"delete/must-absent", "/c/plain", `deviate delete { must "x"; }`, false, nil, false},
-		{"two-deviates", "/c/lf", `deviate replace { units "mm"; } deviate delete { default "d"; }`, true, []string{"units=", "default="}, false},
-		{"missing-target", "/c/nope", `deviate not-supported;`, false, nil, false},
+		{"not-supported/leaf", "/c/lf", "deviate not-supported;", true, nil, true, nil},
+		{"not-supported/container", "/c/inner", "deviate not-supported;", true, nil, true, nil},
+		{"not-supported/list", "/c/li", "deviate not-supported;", true, nil, true, nil},
+		{"not-supported/leaf-list", "/c/ll", "deviate not-supported;", true, nil, true, nil},
+		{"not-supported/choice-member", "/c/ch/ca/cl", "deviate not-supported;", true, nil, true, nil},
+		{"not-supported/nested", "/c/inner/deep", "deviate not-supported;", true, nil, true, nil},
+		{"not-supported/grouping-expanded", "/u/gl", "deviate not-supported;", true, nil, true, nil},
+		{"not-supported/rpc", "/r1", "deviate not-supported;", true, nil, true, nil},
+		{"not-supported/notification", "/n1", "deviate not-supported;", true, nil, true, nil},
+		{"not-supported/top-leaf", "/top", "deviate not-supported;", true, nil, true, nil},
+		{"add/units", "/c/plain", `deviate add { units "m"; }`, true, []string{"units="}, false, nil},
+		{"add/default", "/c/plain", `deviate add { default "x"; }`, true, []string{"default="}, false, nil},
+		{"add/config", "/c/plain", `deviate add { config false; }`, true, []string{"config="}, false, nil},
+		{"add/mandatory", "/c/plain", `deviate add { mandatory true; }`, true, []string{"mandatory="}, false, nil},
+		{"add/must", "/c/plain", `deviate add { must "z"; }`, true, []string{"must[0]="}, false, nil},
+		{"add/must-second", "/c/lf", `deviate add { must "z"; }`, true, []string{"must[1]="}, false, nil},
+		{"add/unique", "/c/li", `deviate add { unique "k u1"; }`, true, []string{"unique="}, false, nil},
+		{"add/units-where-present", "/c/lf", `deviate add { units "m"; }`, false, nil, false, nil},
+		{"add/default-where-present", "/c/lf", `deviate add { default "x"; }`, false, nil, false, nil},
+		{"replace/units", "/c/lf", `deviate replace { units "mm"; }`, true, []string{"units="}, false, nil},
+		{"replace/default", "/c/lf", `deviate replace { default "e"; }`, true, []string{"default="}, false, nil},
+		{"replace/config", "/c/lf", `deviate replace { config false; }`, true, []string{"config="}, false, nil},
+		{"replace/mandatory", "/c/lf", `deviate replace { mandatory true; }`, true, []string{"mandatory="}, false, nil},
+		{"replace/max-elements", "/c/ll", `deviate replace { max-elements 3; }`, true, []string{"max-elements="}, false, nil},
+		{"replace/min-elements", "/c/ll", `deviate replace { min-elements 2; }`, true, []string{"min-elements="}, false, nil},
+		{"replace/max-elements-list", "/c/li", `deviate replace { max-elements 3; }`, true, []string{"max-elements="}, false, nil},
+		{"replace/type", "/c/plain", `deviate replace { type int32; }`, true, []string{"type.format="}, false, nil},
+		{"replace/leaf-list-defaults", "/c/ll", `deviate replace { default "z"; }`, true, []string{"default="}, false, nil},
+		{"replace/units-where-absent", "/c/plain", `deviate replace { units "mm"; }`, false, nil, false, nil},
+		{"replace/default-where-absent", "/c/plain", `deviate replace { default "e"; }`, false, nil, false, nil},
+		{"delete/units", "/c/lf", `deviate delete { units "cm"; }`, true, []string{"units="}, false, nil},
+		{"delete/default", "/c/lf", `deviate delete { default "d"; }`, true, []string{"default="}, false, nil},
+		{"delete/must", "/c/lf", `deviate delete { must "x"; }`, true, []string{"must[0]="}, false, nil},
+		{"delete/unique", "/c/li", `deviate delete { unique "u1 u2"; }`, true, []string{"unique="}, false, nil},
+		{"delete/leaf-list-defaults", "/c/ll", `deviate delete { default "a"; default "b"; }`, true, []string{"default="}, false, nil},
+		{"delete/units-mismatch", "/c/lf", `deviate delete { units "km"; }`, false, nil, false, nil},
+		{"delete/default-mismatch", "/c/lf", `deviate delete { default "other"; }`, false, nil, false, nil},
+		{"delete/must-absent", "/c/plain", `deviate delete { must "x"; }`, false, nil, false, nil},
+		{"delete/two-musts", "/c/mm", `deviate delete { must "m1"; must "m2"; }`, true, []string{"must["}, false, map[string][]string{"must[": {`must[0]="m3" msg="" tag=""`}}},
+		{"delete/two-musts-reversed", "/c/mm", `deviate delete { must "m3"; must "m1"; }`, true, []string{"must["}, false, map[string][]string{"must[": {`must[0]="m2" msg="" tag=""`}}},
+		{"delete/middle-must", "/c/mm", `deviate delete { must "m2"; }`, true, []string{"must["}, false, map[string][]string{"must[": {`must[0]="m1" msg="" tag=""`, `must[1]="m3" msg="" tag=""`}}},
+		{"delete/all-musts", "/c/mm", `deviate delete { must "m2"; must "m3"; must "m1"; }`, true, []string{"must["}, false, map[string][]string{"must[": {}}},
+		{"delete/two-musts-in-two-deviates", "/c/mm", `deviate delete { must "m1"; } deviate delete { must "m3"; }`, true, []string{"must["}, false, map[string][]string{"must[": {`must[0]="m2" msg="" tag=""`}}},
+		{"add/two-musts", "/c/mm", `deviate add { must "z1"; must "z2"; }`, true, []string{"must["}, false, map[string][]string{"must[": {`must[0]="m1" msg="" tag=""`, `must[1]="m2" msg="" tag=""`, `must[2]="m3" msg="" tag=""`, `must[3]="z1" msg="" tag=""`, `must[4]="z2" msg="" tag=""`}}},
+		{"delete/two-uniques", "/c/l3", `deviate delete { unique "u1"; unique "u1 u2"; }`, true, []string{"unique="}, false, map[string][]string{"unique=": {"unique=[[u2]]"}}},
+		{"delete/middle-unique", "/c/l3", `deviate delete { unique "u2"; }`, true, []string{"unique="}, false, map[string][]string{"unique=": {"unique=[[u1] [u1 u2]]"}}},
+		{"add/two-uniques", "/c/li", `deviate add { unique "u1"; unique "u2"; }`, true, []string{"unique="}, false, map[string][]string{"unique=": {"unique=[[u1 u2] [u1] [u2]]"}}},
+		{"delete/must-units-default", "/c/mm", `deviate delete { units "cm"; must "m2"; default "d"; }`, true, []string{"must[", "units=", "default="}, false, map[string][]string{"must[": {`must[0]="m1" msg="" tag=""`, `must[1]="m3" msg="" tag=""`}, "units=": {`units=""`}}},
+		{"replace/units-default-config", "/c/lf", `deviate replace { units "mm"; default "e"; config false; }`, true, []string{"units=", "default=", "config="}, false, map[string][]string{"units=": {`units="mm"`}, "default=": {"default=e"}, "config=": {"config=false"}}},
+		{"add/units-default-must", "/c/plain", `deviate add { units "m"; default "x"; must "z"; }`, true, []string{"units=", "default=", "must["}, false, map[string][]string{"units=": {`units="m"`}, "default=": {"default=x"}, "must[": {`must[0]="z" msg="" tag=""`}}},
+		{"two-deviates", "/c/lf", `deviate replace { units "mm"; } deviate delete { default "d"; }`, true, []string{"units=", "default="}, false, nil},
+		{"missing-target", "/c/nope", `deviate not-supported;`, false, nil, false, nil},
 	}
 }
 
@@ -838,6 +854,17 @@ func c11RunDeviation(idx int, res *eng.Result, ss *sigSet) {
 		}
 		if !hit {
 			ss.add(site+"/wrong-new-value", fmt.Sprintf("want %s; deviated lines: %v", w, onlyDev))
+		}
+	}
+	for prefix, lines := range d.exact {
+		var got []string
+		for _, l := range model.DumpModule(dm, model.FullDump()) {
+			if strings.HasPrefix(l, path+": "+prefix) {
+				got = append(got, strings.TrimPrefix(l, path+": "))
+			}
+		}
+		if strings.Join(got, "\n") != strings.Join(lines, "\n") {
+			ss.add(site+"/wrong-result:"+strings.Trim(prefix, "[="), fmt.Sprintf("after %s the target has %q, want %q", d.deviate, got, lines))
 		}
 	}
 	if strings.HasPrefix(d.name, "add/must") || d.name == "delete/must" {
